@@ -27,6 +27,8 @@ THEOREMS = [
     "Aio.C13.cli_close_abnormal_exit",
     "Aio.C13.srv_close_wait_is_timed",
     "Aio.C13.cli_close_wait_is_timed",
+    "Aio.C13.heartbeat_rearmed_after_coincidence",
+    "Aio.C13.silent_peer_after_coincidence_is_detected",
 ]
 RULE = ("One scenario = a session configuration (server|client, autoclose, autoping, heartbeat in {none,2,8,11 s}, "
         "receive timeout in {none,0.75,3 s}, close timeout in {0.5,1.5,10 s}, writer limit in {1,20,65536} / client default) "
@@ -38,7 +40,9 @@ RULE = ("One scenario = a session configuration (server|client, autoclose, autop
         "driven to quiescence, the connection is dropped, and driven to quiescence again. After every label the projection "
         "of the real objects (session flags, close code, exception kind, writer._closing, wire frames, queue, timers, ready "
         "count, clock, task outcomes) is compared with the Lean model's; the direct oracle judges the wire, the close() "
-        "duration, parked tasks at quiescence, transport state and the close code on the real objects alone. A case is "
+        "duration, parked tasks at quiescence, transport state, the close code and dead-peer detection (heartbeat configured, peer "
+        "silent with the connection open: PING by t+h, session closed 1006 by t+h+h/2, each rounded up <= 1 s) on the real objects alone; "
+        "(d) the heartbeat timer firing at the instant a peer frame is processed (frame first), both sides. A case is "
         "non-trivial when the projection changes at least twice; distinct by (configuration, labels).")
 TRUSTED_BASE = [
     "the hand-written model lean/AioModel/C13.lean of web_ws.py / client_ws.py / _websocket/writer.py / WebSocketDataQueue / "
@@ -214,7 +218,7 @@ def parse_proj(line):
     return d
 
 
-def oracle(ctx, cfg, labels, trace, a_end, complete, case):
+def oracle(ctx, cfg, labels, trace, a_end, complete, case, a_start=None):
     """The property, judged on the implementation's own observations (no model involved).
     `trace[i]` is the projection of the real objects after `labels[i-1]`."""
     P = [parse_proj(l) for l in trace]
@@ -280,6 +284,40 @@ def oracle(ctx, cfg, labels, trace, a_end, complete, case):
                 if op == "recv":
                     ctx.violation("C13/receive-parked/transport-closed", case,
                                   f"receive() of task {t} blocked with nothing left to wake it: {trace[a_end]}")
+    # -- dead-peer detection (heartbeat): phase A of the epilogue is a peer that stays silent but keeps the
+    #    connection open.  With heartbeat h, a session that is open when the silence starts (time t) must put a
+    #    PING on the wire by t + h and, no PONG coming, must be closed abnormally (1006, transport closed, a
+    #    parked receive() released) by t + h + h/2; each deadline may be rounded up to a whole second
+    #    (calculate_timeout_when).  Whatever else the application does meanwhile can only close it earlier.
+    hbt = cfg["heartbeat"]
+    if hbt is not None and a_start is not None:
+        S = P[a_start]
+        if S["c"] == "0" and S["g"] == "0" and S["tc"] == "0":
+            t0 = S["now"]
+            quantum = 1000
+            ping_by = t0 + hbt + quantum
+            closed_by = t0 + hbt + hbt // 2 + 2 * quantum
+            closed_i = next((i for i in range(a_start, a_end + 1) if P[i]["c"] == "1"), None)
+            n_ping0 = S["frames"].count("P")
+            ping_i = next((i for i in range(a_start, a_end + 1) if P[i]["frames"].count("P") > n_ping0), None)
+            if closed_i is None and A["g"] == "1":
+                pass   # the peer's CLOSE (or a local close) was consumed meanwhile: not a silent peer; heartbeat rightly cancelled
+            elif closed_i is None:
+                parked = [t for t, st in enumerate(A["tasks"]) if st == "p" and op_at[a_end].get(t) == "recv"]
+                ctx.violation("C13/dead-peer-undetected/" + ("receive-parked" if parked else "session-left-open"), case,
+                              f"heartbeat {hbt} ms, peer silent from t={t0} ms with the connection open: at quiescence (t={A['now']} ms) the "
+                              f"session is still open, {'no PING was sent' if ping_i is None else 'a PING was sent'}, "
+                              f"{'receive() of task %d is blocked for ever' % parked[0] if parked else 'no receive() in progress'}: {trace[a_end]}")
+            else:
+                if P[closed_i]["now"] > closed_by:
+                    ctx.violation("C13/dead-peer-detected-late", case,
+                                  f"heartbeat {hbt} ms, peer silent from t={t0}: session closed only at t={P[closed_i]['now']} > {closed_by}")
+                if ping_i is None and P[closed_i]["now"] > ping_by:
+                    ctx.violation("C13/dead-peer-no-ping", case,
+                                  f"heartbeat {hbt} ms, peer silent from t={t0}: no PING by t={ping_by}, session closed at t={P[closed_i]['now']}")
+                if ping_i is not None and P[ping_i]["now"] > ping_by and P[closed_i]["now"] > ping_by:
+                    ctx.violation("C13/dead-peer-ping-late", case,
+                                  f"heartbeat {hbt} ms, peer silent from t={t0}: first PING at t={P[ping_i]['now']} > {ping_by}")
     # a close() call ended by CancelledError (at the `_close_wait` await when that future exists)
     close_cancelled = any(
         P[i]["tasks"][t] == "x:cancelled" and P[i - 1]["tasks"][t] == "p" and op_at[i - 1].get(t) == "close"
@@ -405,7 +443,9 @@ def run_and_judge(ctx, cases, where):
             ctx.hit("state:close-wait-pending")
         if " pt=1" in " ".join(res["trace"]):
             ctx.hit("state:ping-task-parked")
-        oracle(ctx, cfg, labels, res["trace"], res["a_end"], res["complete"], case)
+        if res.get("hb_fired_reset_pending"):
+            ctx.hit("state:heartbeat-fired-while-reset-pending:" + cfg["side"])
+        oracle(ctx, cfg, labels, res["trace"], res["a_end"], res["complete"], case, a_start=len(labels0))
         if outs is not None:
             impl = res["trace"]
             model = outs[i].split(";")
@@ -470,6 +510,19 @@ def check(ctx):
                        [("drop", 1), ("tick",), ("call", 0, "recv"), ("tick",), ("tick",)]):
             post.append((cfg, opener + [("call", 1, "recv"), ("tick",)] * 7))
     run_and_judge(ctx, post, "receive-after-closed")
+    # heartbeat: the timer fires while a heartbeat reset is pending (a peer frame was processed at the very
+    # instant of the deadline, frame first), then the peer goes silent — on both sides, with and without a parked receive()
+    hbs = []
+    for base in (srv, cli):
+        for hb in (2000, 8000):
+            c = dict(base, heartbeat=hb)
+            for frame_lab in (("peer", "text", 3), ("peer", "pong"), ("peer", "ping")):
+                hbs.append((c, [("tick",), frame_lab, ("tick",), ("tick",)]))
+                hbs.append((c, [("call", 0, "recv"), ("tick",), ("tick",), frame_lab, ("tick",), ("tick",), ("tick",),
+                                ("call", 0, "recv"), ("tick",)]))
+                hbs.append((c, [("call", 0, "recv"), ("tick",), ("adv", 1000), frame_lab, ("tick",), ("tick",), ("tick",),
+                                ("tick",), frame_lab, ("tick",), ("tick",), ("call", 0, "recv"), ("tick",)]))
+    run_and_judge(ctx, hbs, "heartbeat-coincidence")
     oracle_f9(ctx, F9_CFG, 40000, 2)
     oracle_f9(ctx, dict(F9_CFG, side="client", limit=CLIENT_LIMIT), 40000, 2)
     ctx.case(("f9",), nontrivial=True)
@@ -478,7 +531,8 @@ def check(ctx):
     need = ["state:parked-in-drain", "state:close-wait-pending", "state:ping-task-parked", "task:x:timeout", "task:x:cancelled",
             "task:x:reset", "task:r:CLOSED", "task:r:CLOSING", "task:r:ERROR", "task:c:0", "task:c:1", "exc:pongtimeout", "exc:timeout",
             "exc:eof", "exc:wserr", "code:1006", "code:1000", "code:4000", "side:server", "side:client", "label:drop", "label:cancel",
-            "label:pausew", "label:adv"]
+            "label:pausew", "label:adv",
+            "state:heartbeat-fired-while-reset-pending:server", "state:heartbeat-fired-while-reset-pending:client"]
     missing = [k for k in need if not ctx.hits.get(k)]
     if missing:
         from .common.guard import MachineryError
@@ -501,4 +555,4 @@ def replay(ctx, case):
     cfg = case["cfg"]
     labels = [parse_token(t) for t in case["labels"]]
     res = c13sim.run_scenario(cfg, labels, epilogue=True)
-    oracle(ctx, cfg, res["labels"], res["trace"], res["a_end"], res["complete"], case)
+    oracle(ctx, cfg, res["labels"], res["trace"], res["a_end"], res["complete"], case, a_start=len(labels))
